@@ -29,4 +29,36 @@ def cutOK (thr : Rat) (t : T) (bags : List (List String)) : Bool :=
   bags.all (fun g => !g.isEmpty) &&
   tips.all fun a => tips.all fun b => sameBag bags a b == pathShort thr t a b
 
+/-! ## the cut as documented (round 3): no arithmetic on the "absent" sentinel
+
+  What the documentation fixes about a branch WITHOUT a length: `gotree matrix` says "if there is
+  no length for a given branch, 0.0 is the default"; `gotree brlen cut` says it cuts "branches
+  whose length is greater than or equal to the given length".  For a threshold > 0 both readings
+  agree: a branch without length is not cut (0 < thr; it has no length ≥ thr).  For a threshold
+  ≤ 0 they disagree (0 ≥ thr would be cut; "no length" would not) and nothing else is said: the
+  Spec leaves such a branch UNSPECIFIED there, instead of inheriting the code's `-1 < thr`. -/
+
+/-- is the branch shorter than the threshold, as far as the documentation says -/
+def shortDoc (thr : Rat) (e : EdgeD) : Option Bool :=
+  if e.len == NIL then (if 0 < thr then some true else none) else some (decide (e.len < thr))
+
+/-- `some false`: some branch between `a` and `b` is documented as cut; `some true`: every branch
+    between them is documented as kept; `none`: no branch documented as cut, some unspecified -/
+def pathShortDoc (thr : Rat) (t : T) (a b : String) : Option Bool :=
+  let seps := t.splits.filter fun s => s.sep a b
+  if seps.any (fun s => shortDoc thr s.e == some false) then some false
+  else if seps.all (fun s => shortDoc thr s.e == some true) then some true
+  else none
+
+/-- Spec of the cut used as oracle: the bags partition the tips, none is empty, and two tips
+    share a bag / are apart whenever the documentation decides it. -/
+def cutSpecOK (thr : Rat) (t : T) (bags : List (List String)) : Bool :=
+  let tips := t.tipNames
+  (bags.flatten.mergeSort (fun a b => decide (a ≤ b)) == sortNames tips) &&
+  bags.all (fun g => !g.isEmpty) &&
+  tips.all fun a => tips.all fun b =>
+    match pathShortDoc thr t a b with
+    | some v => sameBag bags a b == v
+    | none => true
+
 end Gotree.C14
